@@ -11,12 +11,18 @@ from runobs import Knobs
 
 KNOBS = {
     "C04": [Knobs(fail_rate=0, undefined_rate=5, max_targets=6), Knobs(fail_rate=0, undefined_rate=0, max_targets=6, slow_deps=True),
-            Knobs(fail_rate=4, undefined_rate=5, max_targets=5)],
+            Knobs(fail_rate=4, undefined_rate=5, max_targets=5),
+            Knobs(fail_rate=0, undefined_rate=0, max_targets=5, sabotage=True),
+            Knobs(fail_rate=0, undefined_rate=0, max_targets=6, slash=True)],
     "C05": [Knobs(undefined_rate=20, notexec_rate=3, fail_rate=0), Knobs(undefined_rate=10, fail_rate=6, max_targets=6),
             Knobs(undefined_rate=25, fail_rate=0, custom_dirs=True, max_targets=5),
-            Knobs(undefined_rate=30, notexec_rate=0, fail_rate=0, max_targets=4)],
+            Knobs(undefined_rate=30, notexec_rate=0, fail_rate=0, max_targets=4),
+            Knobs(undefined_rate=10, fail_rate=0, max_targets=5, checkpoint=True),
+            Knobs(undefined_rate=10, fail_rate=0, max_targets=5, slash=True)],
     "C06": [Knobs(fail_rate=15, notexec_rate=8, undefined_rate=15, redirect_rate=10), Knobs(delays=True, fail_rate=0, undefined_rate=10),
-            Knobs(fail_rate=30, undefined_rate=5, max_targets=6, redirect_rate=15), Knobs(delays=True, fail_rate=10, notexec_rate=5)],
+            Knobs(fail_rate=30, undefined_rate=5, max_targets=6, redirect_rate=15), Knobs(delays=True, fail_rate=10, notexec_rate=5),
+            Knobs(fail_rate=0, undefined_rate=0, notexec_rate=0, chmod=True, max_targets=4),
+            Knobs(fail_rate=5, undefined_rate=5, listener=True, max_targets=4)],
 }
 
 
@@ -32,6 +38,14 @@ def one(prop, seed, model, rep):
         rep.count("commands_%d" % len(sc.command_list()))
         if sc.point_env:
             rep.count("with_injected_delays")
+        if getattr(sc, "checkpointed", False):
+            rep.count("with_checkpoint")
+        if getattr(sc, "chmod_plan", None):
+            rep.count("x_bit_changed_mid_run")
+        if getattr(sc, "listener_kill", None) is not None:
+            rep.count("listener_killed")
+        if getattr(sc, "sabotage", None):
+            rep.count("log_dirs_wiped_mid_run")
         if "obs" in info:
             rep.count("groups_%d" % min(info["ngroups"], 8))
             rep.count("failed_runs" if info["failed"] else "successful_runs")
